@@ -111,6 +111,20 @@ CLAIMED = {
         ref="DESIGN.md §4 C19",
         note="Partial: Python's import machinery is exercised, not modelled; the bindings are stand-ins.",
         technique="Coq proof over regenerated dispatch tables + 4-configuration correspondence"),
+    "C09": dict(
+        text="Machine-checked proof (Coq): the constructor semantics threads the class-level state the library used to keep, and for every "
+             "regenerated constructor it is proved that no statement reads or writes it — for ANY two values of that state (any history of "
+             "other commands) the same arguments build the same command; decode/encode with a class are stateless functions of its own "
+             "table; a generic theorem shows that threads whose steps touch only thread-local state obtain, under ANY schedule, what they "
+             "obtain alone. The premise is tied to the code by a footprint scan (writes to class attributes, globals, caller dict/list "
+             "arguments inside functions of the command modules) REGENERATED on every run and required empty, by the constructor "
+             "correspondence, and by an implementation run: 700 sequential histories (all ordered class pairs, triples), ~1000 two-thread "
+             "schedules under a settrace-controlled line-granular scheduler, input-mutation and determinism probes.",
+        ref="DESIGN.md §4 C09",
+        note="Partial: schedules are explored at source-line granularity (the property's); CPython's bytecode-granular preemption and the GIL "
+             "are outside the model — with an empty footprint the conclusion does not depend on the granularity. The footprint scan is a "
+             "syntactic over-approximation with two stated exceptions (slice writes into library-allocated buffers; helpers handed fresh copies).",
+        technique="Coq non-interference proof over regenerated constructors + regenerated footprint scan + controlled-scheduler runs"),
     "C10": dict(
         text="Machine-checked proof (Coq 8.16.1) of the codec laws for every buffer size, every contiguous mask at any "
              "alignment, every offset, every in-range value, every field order and arbitrary prior contents "
